@@ -11,6 +11,7 @@ pub mod c19;
 pub mod c20;
 pub mod c06;
 pub mod c11;
+pub mod c12;
 pub mod envelope_props;
 pub mod model_props;
 
@@ -29,6 +30,7 @@ pub fn run(args: &Args) -> ! {
         "C19" => c19::run(args),
         "C14" => c14::run(args),
         "C06" => c06::run(args),
+        "C12" => c12::run(args),
         p => {
             eprintln!("INFRA: unknown property '{}'", p);
             std::process::exit(2)
@@ -60,6 +62,7 @@ pub fn replay_one(ctx: &Ctx, doc: &ReplayDoc) {
         "C19" => c19::replay_one(ctx, doc),
         "C14" => c14::replay_one(ctx, doc),
         "C06" => c06::replay_one(ctx, doc),
+        "C12" => c12::replay_one(ctx, doc),
         p => ctx.infra_error(format!("unknown property '{}' in replay file", p)),
     }
 }
